@@ -62,6 +62,17 @@ theorem inc_fl (d : Nat) (k : Int) : (exec (.inc d k) σ).fl =
 theorem inc_pc (d : Nat) (k : Int) : (exec (.inc d k) σ).pc = σ.pc + 1 := by simp [exec, nx_mem, nx_fl, nx_pc, nx_halted, sr_mem, sr_fl, sr_pc, sr_halted]
 theorem inc_halted (d : Nat) (k : Int) : (exec (.inc d k) σ).halted = σ.halted := by simp [exec, nx_mem, nx_fl, nx_pc, nx_halted, sr_mem, sr_fl, sr_pc, sr_halted]
 
+-- DEC
+theorem dec_get (d : Nat) (k : Int) (r : Nat) :
+    (exec (.dec d k) σ).get r = if r = d ∧ d ≠ 0 then (subc (σ.get d) (BitVec.ofInt 16 k) true).1 else σ.get r := by
+  simp [exec, nx_get, wf_get, get_setReg]
+theorem dec_mem (d : Nat) (k : Int) : (exec (.dec d k) σ).mem = σ.mem := by
+  simp [exec, nx_mem, nx_fl, nx_pc, nx_halted, sr_mem, sr_fl, sr_pc, sr_halted]
+theorem dec_pc (d : Nat) (k : Int) : (exec (.dec d k) σ).pc = σ.pc + 1 := by
+  simp [exec, nx_mem, nx_fl, nx_pc, nx_halted, sr_mem, sr_fl, sr_pc, sr_halted]
+theorem dec_halted (d : Nat) (k : Int) : (exec (.dec d k) σ).halted = σ.halted := by
+  simp [exec, nx_mem, nx_fl, nx_pc, nx_halted, sr_mem, sr_fl, sr_pc, sr_halted]
+
 -- LOAD / STORE
 theorem load_get (d : Nat) (o : Int) (b : Nat) (r : Nat) :
     (exec (.load d o b) σ).get r = if r = d ∧ d ≠ 0 then σ.mem (σ.get b + BitVec.ofInt 16 o) else σ.get r := by
